@@ -666,6 +666,12 @@ def normalise(t):
         return ("Err",)
     if h == "errmsg":
         return ("errmsg",)
+    if h == "call" and isinstance(t[1], str) and t[1].endswith("iter::Extend>::extend") and len(t) == 4 and _is(t[3], "call") and t[3][1] == "iter::from_fn" and len(t[3]) == 3 \
+            and _is(t[3][2], "lambda") and not t[3][2][1] and t[1].startswith("<String"):
+        # buf.extend(from_fn(|| next()))   ==   loop { if let Some(c) = next() { buf.push(c) } else { break } }
+        _FOLD_CTR[0] += 1
+        c = "b%d" % _FOLD_CTR[0]
+        return normalise(("loop", ("if", ("iflet", ("pvar", "Option::Some", ("bind", c)), t[3][2][2]), ("call", "String::push", t[2], ("var", c)), ("break",))))
     if h == "call" and t[1] in ("Option::map_or", "Option::map_or_else") and len(t) == 5 and (_is(t[4], "lambda") or _is(t[4], "fnref")):
         # x.map_or(d, f) == match x { Some(v) => f(v), None => d }      (map_or_else: d is a thunk)
         _FOLD_CTR[0] += 1
@@ -868,6 +874,13 @@ def normalise(t):
                 return z
             fbody, v = rn(fbody), nv
         return normalise(("if", ("iflet", ("pvar", "Option::Some", ("bind", v)), x), ("if", ("iflet", t[1][1], fbody), t[2], t[3]), t[3]))
+    if h == "if" and len(t) == 4 and _is(t[1], "call") and t[1][1] == "Option::is_some" and len(t[1]) == 3 and _is(t[1][2], "call") and t[1][2][1] == "Chars.next_if_eq" \
+            and len(t[1][2]) == 4 and _is(t[1][2][3], "char"):
+        # if it.next_if_eq(&'c').is_some() {A} else {B}   ==   if <next char is 'c'> { consume it; A } else {B}
+        it, c = t[1][2][2], t[1][2][3][1]
+        look = ("call", "Iterator::collect::<String>", ("call", "Chars.take", it, ("lit", "1", "usize")))
+        consume = ("call", "TakeRef.for_each", ("call", "CharsRef.take", ("call", "Chars.by_ref", it), ("lit", "1", "usize")), ("fnref", "std::mem::drop"))
+        return normalise(("if", ("call", "<String as cmp::PartialEq>::eq", look, ("str", c)), ("seq", consume, t[2]), t[3]))
     if h == "if" and len(t) == 4 and t[3] == ("lit", "false", "bool"):
         return normalise(("op", "and", "bool", t[1], t[2]))        # if a {b} else {false}  ==  a && b
     if h == "if" and len(t) == 4 and t[2] == ("lit", "true", "bool"):
